@@ -27,6 +27,7 @@ import io
 import json
 import os
 import random
+import re
 import sys
 
 from .. import tlc
@@ -41,8 +42,26 @@ PROTOS = [10, 11]
 METHODS = ['GET', 'HEAD']
 CONNS = ['none', 'keepalive', 'close']
 STATUSES = [200, 201, 204, 304, 404, 500]
-BODIES = ['none', 'empty', 'str', 'bytes', 'list', 'big', 'gen', 'genWithEmpty', 'genEmptyMid', 'genAllEmpty',
-          'file', 'stream', 'yield', 'error']
+BODIES = ['none', 'empty', 'str', 'bytes', 'list', 'big', 'gen', 'genWithEmpty', 'genEmptyMid', 'genAllEmpty', 'genBig',
+          'file', 'trickle', 'stream', 'yield', 'error']
+
+# how the request spells its Connection wish (the wish itself is cfg['conn'])
+SPELLING = {
+    ('close', 'canon'): 'close', ('close', 'title'): 'Close', ('close', 'upper'): 'CLOSE', ('close', 'list'): 'close, foo',
+    ('keepalive', 'canon'): 'keep-alive', ('keepalive', 'title'): 'Keep-Alive', ('keepalive', 'upper'): 'KEEP-ALIVE',
+    ('keepalive', 'list'): 'keep-alive, foo',
+}
+# what the transport accepts per send() while a response is written (cfg['win'])
+ACCEPT = {0: None, 4000: [4000], 1: [1, 700, 65536, 3]}
+
+
+def wish_of(value):
+    """What a Connection header means (RFC 7230 6.1: comma list of case-insensitive
+    options) - the harness's own reading, independent of circuits' parser."""
+    if value is None:
+        return 'none'
+    opts = [o.strip().lower() for o in value.split(',')]
+    return 'close' if 'close' in opts else ('keepalive' if 'keep-alive' in opts else 'none')
 
 # ---------------------------------------------------------------------------
 # what the application produces for each body kind
@@ -56,6 +75,8 @@ GEN_EMPTY_FIRST = ['', 'a', '', b'', 'bc', '']
 GEN_EMPTY_MID = ['a', '', b'', 'bc', '']
 GEN_ALL_EMPTY = ['', b'', '']
 FILE = bytes(range(256)) * 40                              # 10 240 bytes: three reads of BUFSIZE
+GEN_BIG = ['a' * 70000, b'\xfe' * 70000, 'é' * 35000]     # 3 x 70 000 bytes: each larger than a socket buffer
+TRICKLE_READS = [1000, 1, 4096, 1, 37, 4096, 1009]         # what read(4096) returns from the raw stream, in turn
 PUSH = ['chunk-1;', b'chunk-2\xff;', 'end€ of the stream']     # 8, 9, 20 bytes
 YIELD = ['Hello ', 'Wörld!']
 
@@ -67,11 +88,37 @@ def _enc(parts):
 EXPECTED = {
     'none': b'', 'empty': b'', 'str': STR.encode('utf-8'), 'bytes': BYTES, 'list': _enc(LIST),
     'big': BIG.encode('utf-8'), 'gen': _enc(GEN), 'genWithEmpty': _enc(GEN_EMPTY_FIRST),
-    'genEmptyMid': _enc(GEN_EMPTY_MID), 'genAllEmpty': b'', 'file': FILE, 'stream': _enc(PUSH), 'yield': _enc(YIELD),
+    'genEmptyMid': _enc(GEN_EMPTY_MID), 'genAllEmpty': b'', 'genBig': _enc(GEN_BIG), 'file': FILE, 'trickle': FILE,
+    'stream': _enc(PUSH), 'yield': _enc(YIELD),
 }
 
 
-GENS = {'gen': GEN, 'genWithEmpty': GEN_EMPTY_FIRST, 'genEmptyMid': GEN_EMPTY_MID, 'genAllEmpty': GEN_ALL_EMPTY}
+class Trickle(io.RawIOBase):
+    """A raw (unbuffered) stream: read(n) may return fewer than n bytes although
+    more follows - as pipes, sockets and decompressors do.  End of data is an
+    empty read, nothing else."""
+
+    def __init__(self, data, reads):
+        super().__init__()
+        self._data, self._reads, self._pos, self._i = data, reads, 0, 0
+
+    def readable(self):
+        return True
+
+    def read(self, n=-1):
+        if self._pos >= len(self._data):
+            return b''
+        k = self._reads[self._i % len(self._reads)]
+        self._i += 1
+        if n is not None and n >= 0:
+            k = min(k, n)
+        out = self._data[self._pos:self._pos + k]
+        self._pos += len(out)
+        return out
+
+
+GENS = {'gen': GEN, 'genWithEmpty': GEN_EMPTY_FIRST, 'genEmptyMid': GEN_EMPTY_MID, 'genAllEmpty': GEN_ALL_EMPTY,
+        'genBig': GEN_BIG}
 LIST_BODIED = ('none', 'empty', 'str', 'bytes', 'list', 'big', 'stream')     # + 'yield', 'error'
 
 
@@ -129,6 +176,8 @@ def make_app():
                 return res
             if body == 'file':
                 return open(self.filepath, 'rb')
+            if body == 'trickle':
+                return Trickle(FILE, TRICKLE_READS)
             if body == 'stream':
                 res.stream = True
                 self.pending = res
@@ -148,10 +197,11 @@ def make_app():
 
 def request_bytes(cfg, n):
     req = '%s /?n=%d HTTP/%s\r\nHost: verif.example\r\n' % (cfg['method'], n, '1.1' if cfg['proto'] == 11 else '1.0')
-    if cfg['conn'] == 'keepalive':
-        req += 'Connection: keep-alive\r\n'
-    elif cfg['conn'] == 'close':
-        req += 'Connection: close\r\n'
+    value = None
+    if cfg['conn'] != 'none':
+        value = SPELLING[(cfg['conn'], cfg.get('spell', 'canon'))]
+        req += 'Connection: %s\r\n' % value
+    assert wish_of(value) == cfg['conn']
     return (req + '\r\n').encode('ascii')
 
 
@@ -238,12 +288,13 @@ def decode_stream(data, methods):
 # ---------------------------------------------------------------------------
 # one connection, a sequence of configurations
 
-KEYS = ('k', 'i', 'proto', 'method', 'conn', 'status', 'body', 'stream', 'parse', 'ostatus', 'over', 'hascl', 'cl',
+KEYS = ('k', 'i', 'proto', 'method', 'conn', 'status', 'body', 'stream', 'spell', 'win', 'refclosed', 'parse', 'ostatus', 'over', 'hascl', 'cl',
         'chunked', 'bodylen', 'extra', 'cclose', 'cka', 'closed', 'bodyeq', 'explen', 'nresp')
 
 
 def _line(**kw):
     ln = {'k': 'x', 'i': 0, 'proto': 0, 'method': '', 'conn': '', 'status': 0, 'body': '', 'stream': False,
+          'spell': '', 'win': 0, 'refclosed': False,
           'parse': '', 'ostatus': 0, 'over': 0, 'hascl': False, 'cl': -1, 'chunked': False, 'bodylen': 0, 'extra': 0,
           'cclose': False, 'cka': False, 'closed': False, 'bodyeq': True, 'explen': 0, 'nresp': 0}
     ln.update(kw)
@@ -253,13 +304,16 @@ def _line(**kw):
 def run_sequence(cfgs, filepath):
     """Replay a sequence of configurations on one connection of the real
     pipeline.  The next request is sent only while the server has not closed the
-    connection.  -> (trace lines, info) ; info carries diagnostics per exchange."""
+    connection.  The transport is the repository's own Server write path over a
+    socket double whose send() accepts what cfg['win'] says; what is decoded is
+    what the peer received.  -> (trace lines, info) ; info carries diagnostics
+    per exchange.  `refclosed` is filled in later (fill_refclosed)."""
     from ..httpdouble import HttpHarness, NotQuiescent
     from circuits.web.events import stream as stream_event
 
     app = make_app()
     app.filepath = filepath
-    h = HttpHarness(app)
+    h = HttpHarness(app, transport='server')
     lines, info = [], []
     methods = []
     try:
@@ -268,6 +322,11 @@ def run_sequence(cfgs, filepath):
             if c.closed:
                 break
             mark = c.mark()
+            cfg = dict(cfg)
+            cfg.setdefault('spell', 'canon')
+            cfg.setdefault('win', 0)
+            c.accept, c._nsend = ACCEPT[cfg['win']], 0
+            nsends0 = len(c.sends)
             app.plan = cfg
             app.expected = None
             app.pending = None
@@ -295,12 +354,14 @@ def run_sequence(cfgs, filepath):
             else:
                 o, body = decode_segment(seg, cfg['method'])
             why = o.pop('why', None)
-            ln = _line(i=i, closed=c.closed, explen=len(expected), **cfg)
+            ln = _line(i=i, closed=c.closed, refclosed=c.closed, explen=len(expected), **cfg)
             ln.update(o)
             ln['bodyeq'] = (body == expected)
             lines.append(ln)
             methods.append(cfg['method'])
             info.append({'served': app.served - served0, 'seglen': len(seg), 'late': len(c.late), 'why': why,
+                         'sends': len(c.sends) - nsends0,
+                         'partial_sends': sum(1 for a, b in c.sends[nsends0:] if b < a),
                          'errors': ['%s: %s' % (e[0].__name__, str(e[1])[:80]) for e in h.errors[nerr0:nerr0 + 3]],
                          'head': seg[:seg.find(b'\r\n\r\n') + 4].decode('latin1') if b'\r\n\r\n' in seg else seg[:200].decode('latin1'),
                          'residue': h.residue()})
@@ -317,16 +378,35 @@ def run_sequence(cfgs, filepath):
 # ---------------------------------------------------------------------------
 # histories, predictions, witnesses
 
-DEFECTS = ['head_noclose', 'bodiless_body', 'push_cl', 'empty_chunk', 'chunk_noterm', 'stream_sized']
-VARIANTS = ['pinned', 'rfc']
+DEFECTS = ['head_noclose', 'bodiless_body', 'push_cl', 'empty_chunk', 'chunk_noterm', 'stream_sized',
+           'listwish', 'casewish', 'tailappend', 'shortread']
+VARIANTS = ['tree', 'rfc']          # tree = the repository as it is: the intended algorithm + "listwish"
+TREE_DEFECTS = ['listwish']
 
 
 def cfg_of(h):
-    return {'proto': h[0], 'method': h[1], 'conn': h[2], 'status': h[3], 'body': h[4], 'stream': bool(h[5])}
+    return {'proto': h[0], 'method': h[1], 'conn': h[2], 'status': h[3], 'body': h[4], 'stream': bool(h[5]),
+            'spell': h[6], 'win': h[7]}
 
 
 def hist_key(cfgs):
-    return tuple((c['proto'], c['method'], c['conn'], c['status'], c['body'], bool(c['stream'])) for c in cfgs)
+    return tuple((c['proto'], c['method'], c['conn'], c['status'], c['body'], bool(c['stream']),
+                  c.get('spell', 'canon'), c.get('win', 0)) for c in cfgs)
+
+
+def canon_twin(cfgs):
+    """The same sequence with every wish spelled canonically (None if it already is)."""
+    if all(c.get('spell', 'canon') == 'canon' for c in cfgs):
+        return None
+    return [dict(c, spell='canon') for c in cfgs]
+
+
+def fill_refclosed(lines, twin_lines):
+    """refclosed of exchange i := `closed` of exchange i of the canonical twin."""
+    tx = [ln for ln in twin_lines if ln['k'] == 'x']
+    for ln in lines:
+        if ln['k'] == 'x' and ln['i'] <= len(tx):
+            ln['refclosed'] = tx[ln['i'] - 1]['closed']
 
 
 def norm_line(ln):
@@ -338,7 +418,7 @@ def norm_line(ln):
         f = lambda v: 500 if v == xl else v
         cl, bl, ex, xl = f(cl), f(bl), f(ex), 500
     return (ln['parse'], ln['ostatus'], ln['over'], ln['hascl'], cl, ln['chunked'], bl, ex > 0,
-            ln['cclose'], ln['cka'], ln['closed'], ln['bodyeq'], xl)
+            ln['cclose'], ln['cka'], ln['closed'], ln['closed'] == ln['refclosed'], ln['bodyeq'], xl)
 
 
 def witness_of(lines, badline, info):
@@ -354,7 +434,7 @@ def witness_of(lines, badline, info):
     bodiless_status = ln['status'] in (204, 304)
     framing = 'cl' if ln['hascl'] else ('chunked' if ln['chunked'] else 'none')
     return {'pos': 'first' if not earlier else 'later', 'method': ln['method'], 'proto': ln['proto'],
-            'body': ln['body'], 'stream': ln['stream'], 'status': ln['status'], 'bodiless_status': bodiless_status,
+            'conn': ln['conn'], 'spell': ln['spell'], 'win': ln['win'], 'body': ln['body'], 'stream': ln['stream'], 'status': ln['status'], 'bodiless_status': bodiless_status,
             'framing': framing, 'parse': ln['parse'], 'stale_pair': stale,
             'after_head': any(x['method'] == 'HEAD' for x in earlier)}
 
@@ -382,7 +462,7 @@ def mutate_trace(rnd, lines):
     i = rnd.choice(xs)
     ln = out[i]
     bodiless = ln['method'] == 'HEAD' or ln['ostatus'] in (204, 304)
-    opts = ['parse', 'closed', 'status', 'nresp']
+    opts = ['parse', 'closed', 'status', 'nresp', 'refclosed']
     if not bodiless:
         opts += ['bodyeq', 'extra']
         if ln['hascl']:
@@ -396,8 +476,8 @@ def mutate_trace(rnd, lines):
         ln['parse'] = rnd.choice(['nostatus', 'empty', 'incomplete', 'livelock'])
     elif how == 'closed':
         ln['closed'] = not ln['closed']
-        if i + 1 < len(out) and out[i + 1]['k'] == 'x' and ln['closed']:
-            pass
+    elif how == 'refclosed':
+        ln['refclosed'] = not ln['refclosed']
     elif how == 'status':
         ln['ostatus'] = 200 if ln['ostatus'] != 200 else 500
         if (ln['ostatus'] in (204, 304)) != bodiless:
@@ -430,6 +510,9 @@ def run_replay(path):
     fp = _testfile()
     try:
         lines, info = run_sequence(cfgs, fp)
+        twin = canon_twin(cfgs)
+        if twin:
+            fill_refclosed(lines, run_sequence(twin, fp)[0])
     finally:
         os.unlink(fp)
     for ln, inf in zip(lines, info + [{}]):
@@ -481,12 +564,20 @@ def run(tier, replay=None):
     mc = results['mc']
     if 'Exchange' in mc.coverage and mc.coverage['Exchange'][1] == 0:
         raise tlc.MachineryError('vacuous model: action Exchange never taken')
-    # (every single defect violates the monitor: ASSUME Teeth in HttpResponse.tla, evaluated by each run above;
-    #  the history dumps hold the intended variant to all invariants (IConforms, IFramed, ...) on every dumped
+    # every single defect must be flagged by the monitor inside TLC: ASSUME Teeth in HttpResponse.tla (a failure
+    # stops every run above); the clauses TLC found per defect are printed by it and collected here.
+    # (the history dumps hold the intended variant to all invariants (IConforms, IFramed, ...) on every dumped
     #  state, i.e. for every single configuration of the full product with its line in the state)
+    teeth = {m.group(1): sorted(re.findall(r'"(C15\.\w+)"', m.group(2)))
+             for m in re.finditer(r'<<"TEETH", "(\w+)", \{(.*?)\}>>', mc.out)}
+    toothless = [d for d in DEFECTS if not teeth.get(d)]
+    if toothless:
+        raise tlc.MachineryError('defect variants %s of HttpResponse.tla violate no clause: the model lost its teeth' % toothless)
 
     # predictions: variant -> history -> (line of the last exchange, served from a stale pair?)
-    names = {frozenset(): 'rfc', frozenset(DEFECTS): 'pinned'}
+    names = {frozenset(): 'rfc'}
+    if TREE_DEFECTS:
+        names[frozenset(TREE_DEFECTS)] = 'tree'
     pred = {v: {} for v in VARIANTS}
     model_bad = {v: set() for v in VARIANTS}
     hists = {}
@@ -506,9 +597,9 @@ def run(tier, replay=None):
             hists[h] = st['hist']
             if st['bad']:
                 model_bad[v].add(st['bad'])
-    # the defect generator: in the dump, the pinned algorithm must have been flagged by the monitor (inside TLC)
-    if not model_bad['pinned']:
-        raise tlc.MachineryError('the pinned variant of HttpResponse.tla violates no clause: the model lost its teeth')
+    # the defect generator: in the dump, the algorithm of the tree as it is (TREE_DEFECTS) must have been flagged
+    if TREE_DEFECTS and not model_bad['tree']:
+        raise tlc.MachineryError('the tree variant of HttpResponse.tla violates no clause: the model lost its teeth')
     if model_bad['rfc']:
         raise tlc.MachineryError('the intended variant of HttpResponse.tla is flagged by the monitor: %s' % model_bad['rfc'])
     prefixes = set()
@@ -526,6 +617,14 @@ def run(tier, replay=None):
     for _ in range(nrand):
         seqs.append([dict(rnd.choice(allcfg)) for _ in range(3)])
         origin.append('random')
+    # the canonical twin of every sequence with a non-canonical spelling (reference for `refclosed`)
+    index = {hist_key(sq): n for n, sq in enumerate(seqs)}
+    for sq in list(seqs):
+        tw = canon_twin(sq)
+        if tw and hist_key(tw) not in index:
+            index[hist_key(tw)] = len(seqs)
+            seqs.append(tw)
+            origin.append('twin')
 
     timing['parse_dumps_s'] = round(time.time() - t0, 1)
     t0 = time.time()
@@ -536,6 +635,10 @@ def run(tier, replay=None):
     finally:
         os.unlink(fp)
 
+    for sq, (lines, _info) in zip(seqs, runs):
+        tw = canon_twin(sq)
+        if tw:
+            fill_refclosed(lines, runs[index[hist_key(tw)]][0])
     timing['replay_s'] = round(time.time() - t0, 1)
     t0 = time.time()
     # 3. TLC judges every recorded trace
@@ -555,7 +658,7 @@ def run(tier, replay=None):
             single_done.add(key)
         ctx.count_case([list(k) for k in key], nontrivial=bool(xs) and xs[0]['parse'] != 'empty',
                        sample={'cfgs': cfgs[:len(xs)], 'origin': org, 'verdict': clause or 'accepted',
-                               'trace': [{k: ln[k] for k in KEYS[8:]} for ln in lines][:3]})
+                               'trace': [{k: ln[k] for k in KEYS[10:]} for ln in lines][:3]})
         if clause:
             ctx.violation(clause, witness_of(lines, badline, info),
                           {'cfgs': cfgs, 'trace': lines, 'line': badline, 'info': info, 'origin': org})
@@ -611,9 +714,11 @@ def run(tier, replay=None):
         'trace_validation_states': stats['states'],
         'corrupted_traces_rejected': len(muts),
         'timing': timing,
-        'model_pinned_variant_clauses': sorted(model_bad['pinned']),   # clauses TLC's monitor flags in the pinned algorithm
-        'defects_with_teeth': DEFECTS,                                  # ASSUME Teeth, evaluated by TLC in every run
-        'rule': 'cases = sequences of configurations (proto, method, Connection, status, body kind, stream flag) on one '
+        'model_tree_variant_clauses': sorted(model_bad['tree']),   # clauses TLC's monitor flags in the tree's algorithm
+        'defect_clauses_found_by_tlc': teeth,                      # ASSUME Teeth: per defect variant, the clauses violated
+        'partial_send_exchanges': sum(1 for r in runs for inf in r[1] if inf.get('partial_sends')),
+        'rule': 'cases = sequences of configurations (proto, method, Connection wish + spelling, status, body kind, stream '
+                'flag, accept window of the transport) on one '
                 'connection: every single configuration of the full product and every sequence (<= %d) over a reduced '
                 'product, all dumped by TLC from HttpResponse.tla, plus seeded random triples over the full product; '
                 'non-trivial = the server wrote something for the first request; distinct by hash of the sequence '
@@ -623,8 +728,10 @@ def run(tier, replay=None):
                             'product enumerated by TLC on the model; sequences replayed for the reduced product only'
                             % (2 if quick else 3),
     }, assumptions=[
-        'transport is the socket double of harness/httpdouble.py: write/close events are captured, close(sock) is taken to '
-        'close at once (buffer draining is C11/C12)',
+        'transport: the real circuits.net.sockets.TCPServer write path (write / _on_write / _write, deferred close) over the '
+        'socket double of harness/httpdouble.py; send() accepts everything or a scripted part (win); write-readiness is '
+        'delivered once the pipeline is quiescent; what is decoded is what send() accepted, in that order',
+        'refclosed (clause wish_spelling) is taken from a run of the same sequence with canonical spellings on the same tree',
         'http.client.HTTPResponse is the independent decoder; body equality is decided by the projection (Python), framing '
         'and connection state by TLC',
         'each further request is sent only after the previous exchange is quiescent (no pipelining)',
